@@ -1,11 +1,11 @@
 package checks
 
 import (
-	"github.com/monstermichl/typeshell/lexer"
-	"strings"
 	"encoding/json"
 	"fmt"
+	"github.com/monstermichl/typeshell/lexer"
 	"os"
+	"strings"
 	"testing"
 
 	"pgregory.net/rapid"
